@@ -90,9 +90,22 @@ class Mon:
         return r
 
 
+CURRENT_CASE_SEED = ""      # set by the worker before each case (deterministic per-case choices made here)
+
+
 def simulate(top, bench, mon=None):
     """Run `bench` (async def bench(ctx)) against `top`. A Stop raised by the monitor ends the
-    run quietly; anything else propagates."""
+    run quietly; anything else propagates.
+
+    In a quarter of the cases (chosen deterministically from the case's stimulus seed) the design is
+    elaborated once *before* the monitored simulation, so that the monitors also observe the hardware a
+    component yields on its second elaboration (simulate-after-synthesise)."""
+    import zlib
+    if zlib.crc32(CURRENT_CASE_SEED.encode()) % 4 == 0:
+        from amaranth.hdl import Fragment
+        Fragment.get(top, None)
+        if mon is not None:
+            mon.count("runs_on_second_elaboration")
     sim = Simulator(top)
     sim.add_clock(1e-6)
 
